@@ -142,6 +142,44 @@ def job_extents(jc):
     jc.expect_reached("drawn", "nothing drawn")
 
 
+def replay_colr0_extents(inp):
+    """_colr_ufo(0, ...) on the witness transform: the two extent points of the base glyph must cover both layers."""
+    ufo = C05.make_ufo({"square": C05.OUTLINES["square"], "triangle": C05.OUTLINES["triangle"]})
+    for n in ("g0", "g1"):
+        ufo.newGlyph(n)
+    cfg = type("Cfg", (), {"reuse_tolerance": 0.1, "clipbox_quantization": None, "upem": 1000})()
+    from nanoemoji.color_glyph import ColorGlyph
+
+    t = tuple(float(inp[n + "0"]) for n in "abcdef")
+    l0 = [P.PaintTransform(transform=t, paint=C05.G("square")), C05.G("triangle")]
+    cgs = [ColorGlyph(ufo, "", "", "g0", 2, (0x41,), tuple(l0), None, Affine2D.identity(), None), ColorGlyph(ufo, "", "", "g1", 3, (0x42,), (), None, Affine2D.identity(), None)]
+    saved = WF._migrate_paths_to_ufo_glyphs
+    WF._migrate_paths_to_ufo_glyphs = lambda g, cache: g
+    try:
+        WF._colr_ufo(0, cfg, ufo, tuple(cgs))
+    except Exception as e:
+        return {"raised": repr(e)}
+    finally:
+        WF._migrate_paths_to_ufo_glyphs = saved
+    pen = RecordingPen()
+    ufo["g0"].draw(pen)
+    pts = [p for _, a in pen.value for p in a]
+    pen1 = RecordingPen()
+    ufo["g1"].draw(pen1)
+    if pen1.value:
+        return {"glyph that paints nothing was drawn into": pen1.value}
+    if len(pts) != 2:
+        return {"extent points": pts}
+    b = (pts[0][0], pts[0][1], pts[1][0], pts[1][1])
+    for layer in l0:
+        for lf in ps.denote(layer):
+            for pt in C05.control_points(ufo, lf.glyph):
+                qx, qy = ps.apply(lf.M, pt)
+                if max(b[0] - qx, qx - b[2], b[1] - qy, qy - b[3]) > 0.5 + 1e-6:
+                    return {"extents": list(b), "layer point outside": [qx, qy], "transform": list(t)}
+    return None
+
+
 def job_colr0_extents(jc):
     """_colr_ufo(0, …): the base glyph of a painted colour glyph gets extents that cover every layer."""
     import ufo2ft
@@ -151,7 +189,7 @@ def job_colr0_extents(jc):
     for n in ("g0", "g1"):
         ufo.newGlyph(n)
     cfg = type("Cfg", (), {"reuse_tolerance": 0.1, "clipbox_quantization": None, "upem": 1000})()
-    inp = {}
+    inp = {n + "0": core.SymNum(z3.Real(n + "0")) for n in "abcdef"}
 
     def body():
         from nanoemoji.color_glyph import ColorGlyph
@@ -188,7 +226,7 @@ def job_colr0_extents(jc):
             conj.append(C05.box_contains(box, leaves, ufo, 20))
         else:
             conj.append(z3.BoolVal(False))
-        jc.prove(r, z3.And(*conj), "COLRv0: the base glyph's own extents cover all layers; a glyph that paints nothing stays empty", inp, None, key="C03:v0:extents", timeout_ms=60000)
+        jc.prove(r, z3.And(*conj), "COLRv0: the base glyph's own extents cover all layers; a glyph that paints nothing stays empty", inp, replay_colr0_extents, key="C03:v0:extents", timeout_ms=60000)
     jc.expect_reached("ok")
 
 
@@ -203,6 +241,11 @@ def jobs(tier):
     from harness import C16
 
     js.append(Job("contract:transformed", C16.job_transformed))
+    # colour and alpha of each layer come from the source through ColorGlyph.create, whatever the colour format
+    from harness import C01_source
+
+    for name in ("solids+opacity", "fill with its own alpha channel + shape opacity", "palette variable whose default has an alpha channel + shape opacity", "currentColor and palette variables"):
+        js.append(Job(f"source[{name}|user identity]", C01_source.job_source, source=name, user="identity"))
     return js
 
 
